@@ -480,7 +480,11 @@ func parent(ck *Check, tier string, seed int64) int {
 		}
 		newSigs[v.Sig] = true
 		nNew++
-		if nNew > 8 {
+		maxArt := 8
+		if v, err := strconv.Atoi(os.Getenv("VERIF_MAX_ARTEFACTS")); err == nil && v > 0 {
+			maxArt = v
+		}
+		if nNew > maxArt {
 			fmt.Printf("  (further new violation signature, no artefact written) sig=%s\n", v.Sig)
 			continue
 		}
